@@ -154,6 +154,32 @@ func (p *c03) runHistory(x *res, ctx *runner.Ctx, adapter string, spec adapt.Tab
 	x.r.Evals += st.Calls
 	x.r.Counters["steps"] += st.Steps
 	x.fp(nontrivial, "%s|%s", adapter, shape)
+	// the same history once more on a fresh client WITHOUT looking in between: no read touches the table or an index
+	// until every write is done (a fixture is loaded, edited, and only then queried) - the final state is the same
+	cl2, m2, ds2 := freshClient(adapter, spec)
+	if ds2 != nil {
+		return
+	}
+	st2 := &mon.HistoryStats{}
+	keys2 := mon.KeyLog{}
+	f := mon.RunHistory(cl2, m2, ops, keys2, false, nil, ctx.Trace, st2)
+	if f == nil {
+		if od := mon.Observe(cl2, m2, keys2, nil); len(od) > 0 {
+			f = &mon.Failure{Step: len(ops) - 1, Phase: "observe-at-the-end", Diffs: od, Op: ops[len(ops)-1], Prefix: ops}
+		} else if qd := c03Queries(cl2, m2, st2); len(qd) > 0 {
+			f = &mon.Failure{Step: len(ops) - 1, Phase: "observe-at-the-end", Diffs: qd, Op: ops[len(ops)-1], Prefix: ops}
+		}
+	}
+	x.r.Counters["histories_read_only_at_the_end"]++
+	x.r.Evals += st2.Calls
+	if f != nil {
+		for i := range f.Diffs {
+			if !strings.Contains(f.Diffs[i].Rule, "~") { // (a listed finding keeps its signature)
+				f.Diffs[i].Rule = "unread:" + f.Diffs[i].Rule
+			}
+		}
+		x.failureViolation(adapter, f, map[string]interface{}{"spec": spec, "read_only_at_the_end": true, "index_state": indexDiag(cl2, spec.Name)})
+	}
 }
 
 func (p *c03) RunCase(ctx *runner.Ctx) runner.CaseResult {
